@@ -310,9 +310,16 @@ pub struct GoAnswer {
     pub extra_bestmoves: usize,
 }
 /// send `go`, wait for `bestmove`, then fence with isready and count stray bestmove lines
+thread_local! {
+    /// a line to send right after the next `go` (while the engine is thinking); cleared by do_go
+    pub static AFTER_GO: std::cell::RefCell<Option<String>> = std::cell::RefCell::new(None);
+}
 pub fn do_go(e: &mut Engine, go: &str, plan: u64) -> Result<GoAnswer, String> {
     e.drain();
     let t0 = e.send(go);
+    if let Some(l) = AFTER_GO.with(|a| a.borrow_mut().take()) {
+        e.send(&l);
+    }
     let (lines, ok) = e.read_until(|l| l.starts_with("bestmove"), Duration::from_millis(plan + HARD_WAIT_MS));
     if !ok {
         return Err(format!("`{}` was not answered with a bestmove line within plan {} ms + {} ms ({})", go, plan, HARD_WAIT_MS, e.context()));
@@ -450,8 +457,15 @@ pub fn c03_session(s: &GoSession, lines_too: bool, st: &mut Stats) -> CaseResult
         if lines_too && chain > 0 {
             e.settle(25);
         }
-        let ans = do_go(&mut e, &go, plan).map_err(|m| format!("{} [session: {} ; go #{}]", m, ptext, chain + 1))?;
-        let ctx = |e: &mut Engine| format!("[session: {} ; go #{} `{}`; {}]", ptext, chain + 1, go, e.context());
+        // one go in six is followed at once by `stop` (ignored by this engine; an engine that
+        // honours it must still answer with exactly one legal move)
+        let stop_after = !lines_too && stop_after_rule(&ptext, chain as usize, &go);
+        if stop_after {
+            AFTER_GO.with(|a| *a.borrow_mut() = Some("stop".into()));
+            st.label("go_followed_at_once_by_stop");
+        }
+        let ans = do_go(&mut e, &go, plan).map_err(|m| format!("{} [session: {} ; go #{}{}]", m, ptext, chain + 1, if stop_after { " followed at once by `stop`" } else { "" }))?;
+        let ctx = |e: &mut Engine| format!("[session: {} ; go #{} `{}`{}; {}]", ptext, chain + 1, go, if stop_after { " followed at once by `stop`" } else { "" }, e.context());
         if ans.extra_bestmoves > 0 {
             return Err(format!("`{}` produced {} bestmove lines {}", go, 1 + ans.extra_bestmoves, ctx(&mut e)));
         }
@@ -507,6 +521,10 @@ pub fn go_session_json(s: &GoSession) -> Value {
     }
 }
 /// replay of a concrete session: position text + go texts
+/// which gos of a C03 session are followed at once by `stop` (same rule in the run and in a replay)
+fn stop_after_rule(ptext: &str, chain: usize, go: &str) -> bool {
+    fp(&(ptext, chain, go)) % 6 == 0
+}
 pub fn replay_go_session(case: &Value, lines_too: bool) -> CaseResult {
     let ptext = case.get("position").and_then(|x| x.as_str()).ok_or("no position in replay case")?;
     if case.get("huge").is_some() {
@@ -529,6 +547,9 @@ pub fn replay_go_session(case: &Value, lines_too: bool) -> CaseResult {
             break;
         }
         let plan = plan_ms(go, p.stm == Color::White);
+        if !lines_too && stop_after_rule(ptext, i, go) {
+            AFTER_GO.with(|a| *a.borrow_mut() = Some("stop".into()));
+        }
         let ans = do_go(&mut e, go, plan)?;
         if ans.extra_bestmoves > 0 {
             return Err(format!("`{}` (go #{}) produced {} bestmove lines", go, i + 1, 1 + ans.extra_bestmoves));
